@@ -298,7 +298,7 @@ def isChannel (s : Str) : Bool :=
   | [] => false
   | c :: _ =>
     !s.contains ',' && !s.contains (Char.ofNat 7) && (c = '#' || c = '&' || c = '!') &&
-      s.length ≤ 50 && (splitNone1 s).length = 1
+      s.length ≤ 50 && splitWs s == [s]
 
 /-- the part of a cache key below the variable: `name[len(gname)+1:]` when
 `name.lower().startswith(gname)` and it is longer -/
